@@ -98,6 +98,7 @@ type succ struct {
 	viol    *Violation
 	soft    []*Violation
 	key     string
+	reads   string // digest of the answers read back during the step (worlds with LogReads)
 }
 
 type worker struct {
@@ -254,6 +255,7 @@ func Explore(mk func() Driver, o Options, kf *Findings) *Stats {
 			guard(func() {
 				d := mk()
 				pool[i] = &worker{d: d, w: d.Build()}
+				pool[i].w.LogReads = o.TraceAll
 			})
 		}(i)
 	}
@@ -328,7 +330,7 @@ func Explore(mk func() Driver, o Options, kf *Findings) *Stats {
 					if st.Trace == nil {
 						st.Trace = map[string]string{}
 					}
-					st.Trace[s.key] = fmt.Sprintf("%s %x %s", s.outcome, s.n.hash[:8], s.opname)
+					st.Trace[s.key] = fmt.Sprintf("%s %x reads:%s %s", s.outcome, s.n.hash[:8], s.reads, s.opname)
 				}
 				st.PerOpTried[s.opname]++
 				if s.changed {
@@ -483,8 +485,9 @@ func expand(d Driver, w *World, pn pnode) []succ {
 			continue
 		}
 		opn := d.OpName(n, op)
+		w.TakeReads()
 		r := d.Step(x, &Node{L: n.L, H: n.H, TS: n.TS, M: n.M.Clone()}, op)
-		s := succ{changed: r.Changed, outcome: r.Outcome, opname: opn, key: fmt.Sprint(append(append([]uint16{}, pn.path...), uint16(op)))}
+		s := succ{changed: r.Changed, outcome: r.Outcome, opname: opn, reads: w.TakeReads(), key: fmt.Sprint(append(append([]uint16{}, pn.path...), uint16(op)))}
 		for _, sv := range r.Soft {
 			sv.Path = append(append([]string{}, names...), opn)
 			for _, p := range pn.path {
